@@ -334,6 +334,7 @@ def soloGen (g0 period mode k : Nat) : Nat :=
   if mode = 1 then (if k = 0 then g0 else (g0 + 1) % 65536)
   else if mode = 2 then (g0 + 1) % 65536
   else if mode = 4 then soloFinal g0
+  else if mode = 5 then (if k = 0 then g0 else 0)
   else if mode = 3 then (if k = 0 then g0 else if k % 2 = 1 then (g0 + 1) % 65536 else (g0 + 2 * ((k / 2) % period + 1)) % 65536)
   else (g0 + 2 * (k % period)) % 65536
 
@@ -419,7 +420,7 @@ def slxLine (args impl : List String) : String :=
       | none => false
     let v := verdict "C18" true (returned && decide (genLoads ≤ SL.RETRIES + 1) && thenTok != "unbounded") ++ " " ++
              verdict "C02" true secondOk ++ " " ++ verdict "C03" true finalOk ++ " " ++ verdict "C04" true (secondOk && finalOk)
-    let tags := (if genLoads > 1000 then ["exhaust"] else ["short"]) ++ (if mode == 1 then ["deadWriter"] else if mode == 3 then ["alternating"] else [])
+    let tags := (if genLoads > 1000 then ["exhaust"] else ["short"]) ++ (if mode == 1 then ["deadWriter"] else if mode == 3 then ["alternating"] else if mode == 5 then ["wipedUnder"] else [])
     s!"{m} | {v} | {String.intercalate "," tags}"
   | _ => "bad-op | |"
 
@@ -499,7 +500,13 @@ def skipLine (args impl : List String) : String :=
 
 def processLine (line : String) : String :=
   let parts := line.splitOn " => "
-  let req0 := (parts.headD "").trimAscii.toString.splitOn " " |>.filter (· ≠ "")
+  -- `@env NAME=VALUE …` at the end of a request: the environment the harness set for it; irrelevant to the model
+  let reqAll := (parts.headD "").trimAscii.toString.splitOn " " |>.filter (· ≠ "")
+  let rec cut : List String → List String
+    | "@env" :: kv :: rest => if kv.contains '=' then [] else "@env" :: cut (kv :: rest)
+    | x :: rest => x :: cut rest
+    | [] => []
+  let req0 := cut reqAll
   -- an empty answer leaves a dangling "=>" at the end of the request
   let req := if req0.getLast? == some "=>" then req0.dropLast else req0
   let impl := ((parts.drop 1).headD "").trimAscii.toString.splitOn " " |>.filter (· ≠ "")
